@@ -1309,7 +1309,7 @@ func (f *FuncCtx) rangeStmt(s *ast.RangeStmt, env *Env, fl *flow, label string) 
 		if u.Info()&types.IsInteger != 0 {
 			implicit := func(e *Env) []string {
 				sync(e)
-				return []string{fmt.Sprintf("(<= 0 %s)", idx(e).T), fmt.Sprintf("(or (<= %s %s) (< %s 0))", idx(e).T, x.T, x.T)}
+				return []string{fmt.Sprintf("(<= 0 %s)", idx(e).T), fmt.Sprintf("(or (<= %s %s) (and (< %s 0) (= %s 0)))", idx(e).T, x.T, x.T, idx(e).T)}
 			}
 			cond := func(e *Env) string { return fmt.Sprintf("(< %s %s)", idx(e).T, x.T) }
 			bind := func(e *Env) {
@@ -1392,6 +1392,23 @@ func (f *FuncCtx) afterStmt(s ast.Stmt, env *Env) {
 		text := exprStr(ast.Unparen(c.Fun))
 		for _, cl := range f.C.GhostCall["after:"+text] {
 			f.ghostAssign(cl, map[string]Val{}, &ast.BadStmt{From: s.End(), To: s.End()}, env)
+		}
+		// site-specific stepping stones: 'after callee#n: e' applies to the n-th call of that callee (source order) only
+		siteKeyed := false
+		for k := range f.C.After {
+			if strings.HasPrefix(k, text+"#") {
+				siteKeyed = true
+			}
+		}
+		if siteKeyed {
+			f.callOrd["aftersite:"+text]++
+			site := f.callOrd["aftersite:"+text]
+			for k, cl := range f.C.After[fmt.Sprintf("%s#%d", text, site)] {
+				sc := &specCtx{old: f.entry, pos: s.End(), scope: f.fr.scope, pcs: f.PC}
+				g := f.evalClause(cl, env, sc)
+				f.oblige(fmt.Sprintf("after.%s#%d.s%d", text, site, k+1), "after", env, g, cl.Text, fmt.Sprintf("%s:%d", shortPath(cl.File), cl.Line))
+				f.assume(env, g)
+			}
 		}
 		cls, ok := f.C.After[text]
 		if !ok {
